@@ -581,7 +581,53 @@ pub fn run(tier: Tier) -> i32 {
             dirs: vec![],
             want: Want::Pasted(".equ G_K = 6\nldi r16, G_K\n"),
         },
+        Tree {
+            name: "includepath-in-a-nested-include-naming-the-directory-of-its-includer",
+            files: vec![
+                ("src/main.asm", ".include \"sub/p.inc\"\n.include \"q.inc\"\nldi r16, Q_K\n"),
+                ("src/sub/p.inc", ".include \"c.inc\"\n"),
+                ("src/sub/c.inc", ".includepath \".\"\n"),
+                ("src/sub/q.inc", ".equ Q_K = 8\n"),
+            ],
+            caller_dirs: vec![],
+            dirs: vec![],
+            want: Want::Pasted(".equ Q_K = 8\nldi r16, Q_K\n"),
+        },
+        // names are matched as written: a file whose name differs in letter case is another file
+        Tree {
+            name: "upper-case-name-with-a-lower-case-twin-beside-the-includer",
+            files: vec![
+                ("src/main.asm", ".include \"Table.inc\"\nldi r16, TAB_K\n"),
+                ("src/table.inc", ".equ TAB_K = 0x11\n"),
+                ("lib/Table.inc", ".equ TAB_K = 0x33\n"),
+            ],
+            caller_dirs: vec!["lib"],
+            dirs: vec![],
+            want: Want::Pasted(".equ TAB_K = 0x33\nldi r16, TAB_K\n"),
+        },
+        Tree {
+            name: "only-a-lower-case-twin-of-the-included-name",
+            files: vec![("src/main.asm", ".include \"Missing.inc\"\nnop\n"), ("src/missing.inc", "ldi r16, 1\n"), ("lib/MISSING.INC", "ldi r16, 2\n")],
+            caller_dirs: vec!["lib"],
+            dirs: vec![],
+            want: Want::ErrNaming("Missing.inc"),
+        },
+        // messages are part of the result: the same text on the same line of two files (or of one
+        // file read twice) is printed once per time it is assembled
+        Tree {
+            name: "same-message-on-the-same-line-of-consecutive-inclusions",
+            files: vec![
+                ("src/main.asm", ".include \"a.inc\"\n.include \"a.inc\"\n.include \"b.inc\"\nnop\n"),
+                ("src/a.inc", ".message \"banner\"\nldi r16, 1\n"),
+                ("src/b.inc", ".message \"banner\"\nldi r16, 2\n.warning \"banner\"\n"),
+            ],
+            caller_dirs: vec![],
+            dirs: vec![],
+            want: Want::Pasted(".message \"banner\"\nldi r16, 1\n.message \"banner\"\nldi r16, 1\n.message \"banner\"\nldi r16, 2\n.warning \"banner\"\nnop\n"),
+        },
     ];
+    // (message texts without their location: line numbers restart in every file)
+    let bare = |m: &Vec<String>| -> Vec<String> { m.iter().map(|x| match x.rfind(" in line") { Some(i) => x[..i].to_string(), None => x.clone() }).collect() };
     let n_trees = trees.len();
     for (ti, t) in trees.iter().enumerate() {
         let root = scratch.path.join(format!("tree{}", ti));
@@ -600,6 +646,8 @@ pub fn run(tier: Tier) -> i32 {
                 Outcome::Ok(r) => {
                     if b.code != r.code || b.eeprom != r.eeprom || b.ram_filling != r.ram_filling {
                         Some(("differs-from-pasted", format!("the tree assembles to {} but the pasted text to {}", sut::hex_trunc(&b.code, 40), sut::hex_trunc(&r.code, 40))))
+                    } else if bare(&b.messages) != bare(&r.messages) {
+                        Some(("differs-from-pasted", format!("the tree prints {:?} but the pasted text {:?}", b.messages, r.messages)))
                     } else {
                         None
                     }
